@@ -80,6 +80,7 @@ func PushCheck(sc sim.Scenario, h *sim.History) []Problem {
 		reqs      []pushReq
 		rets      []sim.Event
 		ctxEndSeq int // first event that ends its context (pushcancel / stop / peerclose / epilogue), -1 none
+		stopSeq   int // first event that ends the connection the push was made on, -1 none
 	}
 	calls := map[string]*call{}
 	keyOf := func(inside bool, k int) string { return fmt.Sprintf("%v/%d", inside, k) }
@@ -102,7 +103,7 @@ func PushCheck(sc sim.Scenario, h *sim.History) []Problem {
 	}
 	var replies []*reply
 	var quiesces []int
-	stopSeq := -1
+	var stops, restarts []int
 	outstanding := map[string]bool{}
 	inHandlerCancel := map[int]int{} // nonce -> seq at which its handler context ended
 	for _, e := range h.Events {
@@ -154,9 +155,11 @@ func PushCheck(sc sim.Scenario, h *sim.History) []Problem {
 				inHandlerCancel[e.K] = e.Seq
 			}
 		case "stop", "peerclose", "epilogue", "recvfault":
-			if stopSeq < 0 && !(e.Kind == "recvfault" && (e.Err == "" || e.Err == "EOF")) {
-				stopSeq = e.Seq
+			if !(e.Kind == "recvfault" && (e.Err == "" || e.Err == "EOF")) {
+				stops = append(stops, e.Seq)
 			}
+		case "restart":
+			restarts = append(restarts, e.Seq)
 		case "sending":
 			// (a record counts as sent from the moment the peer starts sending it:
 			// the server may act on it before the peer's Send call returns)
@@ -201,13 +204,28 @@ func PushCheck(sc sim.Scenario, h *sim.History) []Problem {
 		}
 	}
 	for _, c := range calls {
+		// the connection a push belongs to starts at the last restart before it
+		// and ends at the first stop after that restart
+		epoch := -1
+		for _, r := range restarts {
+			if r < c.pushSeq {
+				epoch = r
+			}
+		}
+		c.stopSeq = -1
+		for _, s := range stops {
+			if s > epoch {
+				c.stopSeq = s
+				break
+			}
+		}
 		if c.inside {
 			if s, ok := inHandlerCancel[c.key]; ok && (c.ctxEndSeq < 0 || s < c.ctxEndSeq) {
 				c.ctxEndSeq = s
 			}
 		}
-		if stopSeq >= 0 && (c.ctxEndSeq < 0 || stopSeq < c.ctxEndSeq) {
-			c.ctxEndSeq = stopSeq
+		if c.stopSeq >= 0 && (c.ctxEndSeq < 0 || c.stopSeq < c.ctxEndSeq) {
+			c.ctxEndSeq = c.stopSeq
 		}
 	}
 
@@ -229,6 +247,7 @@ func PushCheck(sc sim.Scenario, h *sim.History) []Problem {
 		}
 		ret := c.rets[0]
 		flag := ret.Flag
+		stopSeq := c.stopSeq
 		if c.inside {
 			switch {
 			case ret.Err == "":
